@@ -16,7 +16,7 @@
    ce143d9 "RemoveAll removes the subtree in one critical section". *)
 From Coq Require Import String.
 From AF Require Import Lib.Bytes Lib.Path Lib.Ops Gen.Consts Model.MemFile Model.MemFs Model.Conc
-  Model.ConcStatic Proofs.ConcProof.
+  Model.ConcStatic Gen.ConcTab Proofs.ConcProof.
 
 (* ================================================================== lockset *)
 (* Every pair of conflicting annotated accesses of sections that well-typed programs can run is
@@ -259,14 +259,22 @@ Print Assumptions C03_quiescent_refuted_before_ce143d9.
    path (both branches of every if, loops, calls inlined): no unlock of a lock not held, mu never
    taken while mu or a file mutex is held, file mutexes never nested, every return and every
    log.Panic — after the deferred unlocks of all unwound frames — leaves nothing locked. *)
-Theorem C03_source_table_balanced : cc_tab_check cc_locktab_b = true.
+Theorem C03_source_table_balanced : cc_tab_check cc_locktab_src = true.
 Proof. vm_compute. reflexivity. Qed.
 Print Assumptions C03_source_table_balanced.
+
+(* cc_locktab_src (Gen/ConcTab.v) is REGENERATED from /repo's AST by every run of ./check; the
+   sections of Model/Conc.v were compiled by hand from the table declared there (cc_locktab).  The
+   two are the same table: an edit of the locking in memmap.go / mem/*.go breaks this theorem
+   (and shows up as a `locks` correspondence mismatch), telling that the sections must be revisited. *)
+Theorem C03_declared_table_is_source_table : cc_locktab_b = cc_locktab_src.
+Proof. vm_compute. reflexivity. Qed.
+Print Assumptions C03_declared_table_is_source_table.
 
 (* the functions in which an explicit panic is reachable: Remove, RemoveAll, Rename (through
    renameDescendants / unRegisterWithParent: "parent of ... is nil") — all under a deferred unlock *)
 Theorem C03_source_table_panic_sites :
-  cc_tab_can_panic cc_locktab_b =
+  cc_tab_can_panic cc_locktab_src =
   map cc_bytes ["MemMapFs.Remove"; "MemMapFs.RemoveAll"; "MemMapFs.Rename"; "MemMapFs.renameDescendants";
                 "MemMapFs.unRegisterWithParent"]%string.
 Proof. vm_compute. reflexivity. Qed.
